@@ -139,6 +139,11 @@ func verifHarness_C20_basicAuthRaw() {
 	ranMain := false
 	var sawUser any
 	r := rux.New()
+	// something earlier in the chain may have put a user name into the context (another gate
+	// without an account list, a session middleware): this gate still checks its own list
+	if verifChoice("usernamePreset", 2) == 1 {
+		r.Use(func(c *rux.Context) { c.Set("username", "someone-else") })
+	}
 	r.GET("/x", func(c *rux.Context) { ranMain = true; sawUser, _ = c.Get("username") }, gate)
 	rec := verifNewWriter()
 	k := verifCatch(func() { r.ServeHTTP(rec, req) })
